@@ -836,6 +836,9 @@ func c16driver(ctx *hlib.Ctx) {
 		q := r.Fork()
 		sched := i%3 == 2
 		cfg := c16cfg{max: q.Range(1, 3), mutual: []int{0, 0, 1, 2}[q.Intn(4)], dur: []int64{1, 5, 10, 1000}[q.Intn(4)]}
+		if q.Chance(25) { // room below the capacity, tight mutual limit
+			cfg.max, cfg.mutual = q.Range(3, 5), 1
+		}
 		np, nh := 4, 2
 		kind := "random-connstate"
 		if sched {
